@@ -120,7 +120,7 @@ type Corruption struct {
 // ByzKinds lists the corruption kinds per RPC.
 var ByzKinds = map[string][]string{
 	"headers":    {"break-link", "low-work", "timestamp-past", "extra-remaining", "empty-with-remaining", "duplicate", "wrong-type", "garbage", "close"},
-	"blocks":     {"other-branch", "body-swap", "drop-txns", "too-few", "too-many", "reorder", "wrong-type", "garbage", "close", "foreign-last", "body-swap+hangup", "drop-txns+hangup", "too-few-not-last", "empty-not-last"},
+	"blocks":     {"other-branch", "body-swap", "drop-txns", "too-few", "too-many", "reorder", "wrong-type", "garbage", "close", "foreign-last", "body-swap+hangup", "drop-txns+hangup", "too-few-not-last", "empty-not-last", "hostile-body"},
 	"checkpoint": {"non-v2", "wrong-id", "state-field", "state-work", "recommit", "wrong-type", "garbage", "close", "two-payouts", "payout-value", "v2-height"},
 	// hostile-*: announcements that attach to the receiver's tip, meet the
 	// proof-of-work target where one applies, and carry extreme constants
@@ -130,6 +130,9 @@ var ByzKinds = map[string][]string{
 	"relay-header":  {"low-work", "unknown-parent", "hostile-timestamp"},
 	"relay-outline": {"low-work", "invalid-child", "wrong-missing", "no-missing", "txn-altered", "unknown-parent", "hostile-embedded", "hostile-missing", "hostile-field"},
 	"relay-txset":   {"empty", "unknown-basis", "invalid", "hostile-txn", "hostile-basis"},
+	// not an announcement but a request sent to the victim: extreme heights,
+	// maxima and lists
+	"relay-request": {"hostile-numbers"},
 }
 
 // ByzPeer is a scripted gateway peer that serves a claimed chain and applies
@@ -304,6 +307,9 @@ func (b *ByzPeer) Handle(id types.Specifier, s *gateway.Stream) {
 			return
 		}
 		k := modn(b.Corr.Arg, len(blocks))
+		if b.Corr.Kind == "hostile-body" {
+			k = modn(b.Corr.Arg%16, len(blocks)) // Arg = position + 16*variant
+		}
 		applied := true
 		kind, hangup := strings.CutSuffix(b.Corr.Kind, "+hangup")
 		idBefore := blocks[k].ID()
@@ -332,6 +338,18 @@ func (b *ByzPeer) Handle(id types.Specifier, s *gateway.Stream) {
 				blocks[k].V2.Transactions = v2txns
 			} else {
 				blocks[k].Transactions = append(append([]types.Transaction(nil), blocks[k].Transactions...), types.Transaction{ArbitraryData: [][]byte{[]byte("oops")}})
+			}
+		case "hostile-body":
+			// under the unchanged v2 id: a body of extreme constants (variant by
+			// Arg/16: v2 transactions, then v1 transactions inside the v2 block)
+			if blocks[k].V2 == nil {
+				applied = false
+				break
+			}
+			if v := modn(b.Corr.Arg/16, HostileV2Variants+HostileV1Variants); v < HostileV2Variants {
+				blocks[k].V2.Transactions = []types.V2Transaction{HostileV2Txn(v, 63)}
+			} else {
+				blocks[k].Transactions = []types.Transaction{HostileV1Txn(v - HostileV2Variants)}
 			}
 		case "drop-txns":
 			if blocks[k].V2 != nil && len(blocks[k].V2.Transactions) > 0 {
@@ -384,7 +402,7 @@ func (b *ByzPeer) Handle(id types.Specifier, s *gateway.Stream) {
 		}
 		if applied {
 			b.count(b.applied, "blocks")
-			if (kind == "body-swap" || kind == "drop-txns") && k < len(blocks) && blocks[k].ID() == idBefore {
+			if (kind == "body-swap" || kind == "drop-txns" || kind == "hostile-body") && k < len(blocks) && blocks[k].ID() == idBefore {
 				// another body under an unchanged (v2) id: passes every id check,
 				// core rejects the block
 				b.count(b.applied, "blocks:same-id-invalid-body")
@@ -587,6 +605,23 @@ func relay(conn *GWConn, r gateway.Object) error {
 		return err
 	}
 	return s.WriteRequest(r)
+}
+
+// Request sends a request and reads (and drops) the answer, whatever it is.
+func Request(conn *GWConn, r gateway.Object) error {
+	s, err := conn.T.DialStream()
+	if err != nil {
+		return err
+	}
+	defer s.Close()
+	s.SetDeadline(time.Now().Add(10 * time.Second))
+	if err := s.WriteID(r); err != nil {
+		return err
+	} else if err := s.WriteRequest(r); err != nil {
+		return err
+	}
+	s.ReadResponse(r)
+	return nil
 }
 
 // RelayHeader relays a header.
